@@ -137,8 +137,24 @@ def main():
                         s['label'] = '{} earlier capture {}'.format(s['label'], k)
                     simnet.install(earlier)
                     capture_button(scratch)
+                    # … which is replayed from its file, as the web front end does (queue_file)
+                    from bardolph.controller.script_job import ScriptJob
+                    snap_path = os.path.join(scratch, '__snapshot__.ls')
+                    first_job = ScriptJob.from_file(snap_path)
+                    if first_job.program:
+                        first_job.execute()
                     net, ls, trace = simnet.install(copy.deepcopy(pop))
                     filed = capture_button(scratch)
+                    # replaying the file again must run the NEW capture
+                    again = ScriptJob.from_file(snap_path)
+                    fresh = ScriptJob.from_string(filed)
+                    enc = lambda prog: None if prog is None else [vmwire.enc_instr_fixed(x) for x in prog]  # noqa
+                    if enc(again.program) != enc(fresh.program):
+                        chk.violation('replay-runs-an-earlier-capture',
+                                      'the program loaded from the snapshot file after a second capture is not the '
+                                      'program of the file\'s text ({} vs {} instructions)'.format(
+                                          len(again.program or []), len(fresh.program or [])),
+                                      {'population': pop, 'file': filed})
                 finally:
                     shutil.rmtree(scratch, ignore_errors=True)
                 stats['captures_through_button'] = stats.get('captures_through_button', 0) + 1
